@@ -40,27 +40,17 @@ pub(super) async fn sync(
         trace!("beginning sync outer loop");
         let mut base_version_id = txn.base_version().await?;
 
-        let mut local_ops = txn.unsynced_operations().await?;
-        let sync_ops = local_ops.drain(..).filter_map(SyncOp::from_op);
-        let mut sync_ops_peekable = sync_ops.peekable();
+        // All local operations not yet accepted by the server. Every version pulled from the
+        // server is "rebased" over this whole list, not just over the next batch to be sent, so
+        // that operations sent in later batches are also transformed.
+        let mut local_ops: Vec<SyncOp> = txn
+            .unsynced_operations()
+            .await?
+            .drain(..)
+            .filter_map(SyncOp::from_op)
+            .collect();
 
-        // batch operations into versions of no more than a million bytes to avoid excessively large http requests.
-        let sync_ops_batched = std::iter::from_fn(|| {
-            let mut batch_size = 0;
-            let mut batch = Vec::new();
-
-            while let Some(op) = sync_ops_peekable.next_if(|op| {
-                batch_size += serde_json::to_string(&op).unwrap().len();
-                // include if the batch is empty or if the batch size limit is not exceeded.
-                batch.is_empty() || batch_size <= 1000000
-            }) {
-                batch.push(op);
-            }
-
-            Some(batch)
-        });
-
-        for mut sync_ops_batch in sync_ops_batched {
+        loop {
             // first pull changes and "rebase" on top of them
             loop {
                 trace!("beginning sync inner loop");
@@ -75,13 +65,8 @@ pub(super) async fn sync(
 
                     // apply this version and update base_version in storage
                     info!("applying version {version_id:?} from server");
-                    apply_version(
-                        txn,
-                        &mut sync_ops_batch,
-                        &mut transformed_server_ops,
-                        version,
-                    )
-                    .await?;
+                    apply_version(txn, &mut local_ops, &mut transformed_server_ops, version)
+                        .await?;
                     txn.set_base_version(version_id).await?;
                     base_version_id = version_id;
                 } else {
@@ -91,17 +76,29 @@ pub(super) async fn sync(
                 }
             }
 
-            if sync_ops_batch.is_empty() {
+            if local_ops.is_empty() {
                 info!("no changes to push to server");
                 // nothing to sync back to the server..
                 break 'outer;
             }
 
-            trace!("sending {} operations to the server", sync_ops_batch.len());
+            // batch operations into versions of no more than a million bytes to avoid excessively
+            // large http requests. A batch always contains at least one operation.
+            let mut batch_size = 0;
+            let mut batch_len = 0;
+            for op in &local_ops {
+                batch_size += serde_json::to_string(&op).unwrap().len();
+                if batch_len > 0 && batch_size > 1000000 {
+                    break;
+                }
+                batch_len += 1;
+            }
+
+            trace!("sending {batch_len} operations to the server");
 
             // now make a version of our local changes and push those
             let new_version = Version {
-                operations: sync_ops_batch,
+                operations: local_ops[..batch_len].to_vec(),
             };
             let history_segment = serde_json::to_string(&new_version).unwrap().into();
             info!("sending new version to server");
@@ -112,6 +109,7 @@ pub(super) async fn sync(
                     info!("version {new_version_id:?} received by server");
                     txn.set_base_version(new_version_id).await?;
                     base_version_id = new_version_id;
+                    local_ops.drain(..batch_len);
 
                     // make a snapshot if the server indicates it is urgent enough
                     let base_urgency = if avoid_snapshots {
